@@ -307,6 +307,13 @@ def build(clean: bool = False, timeout: int = 3000):
                 if not (THEORIES / f'{f}.v').exists():     # failed closed: a stub that does not compile, so that only its dependents break
                     (THEORIES / f'{f}.v').write_text('(* the translator failed closed on this part of identify_utils.py *) '
                                                      'Definition translator_failed_closed : True := 0.\n')
+        tt = VERIF / 'tools' / 'translate_traversal.py'
+        if tt.exists():      # causal_graph.py traversal methods -> TraversalGenCyc.v / TraversalGenQ.v (writes a stub that does not compile when it fails closed)
+            r = subprocess.run([sys.executable, str(tt), str(REPO), str(THEORIES)], capture_output=True, text=True)
+            log.append('translate_traversal: exit %d %s' % (r.returncode, (r.stdout + r.stderr)[-600:]))
+            for f in ('TraversalGenCyc', 'TraversalGenQ'):
+                if not (THEORIES / f'{f}.v').exists():
+                    (THEORIES / f'{f}.v').write_text('(* the translator failed closed *) Definition translator_failed_closed : True := 0.\n')
         if clean:
             subprocess.run(['make', '-C', str(COQ), 'clean'], capture_output=True, text=True)
         if not (COQ / 'Makefile').exists() or (COQ / '_CoqProject').stat().st_mtime > (COQ / 'Makefile').stat().st_mtime:
